@@ -72,7 +72,7 @@ var errE2ECut = errors.New("verif: connection cut")
 // ordinary message) until the client has seen the latest one.
 const (
 	e2eMaxWarm       = 100
-	e2eMaxSentinels  = 150
+	e2eMaxSentinels  = 600 // x 30 ms: patience under heavy machine load; only a failing run waits that long
 	e2eSentinelData  = "verif-sentinel-"
 	e2eSentinelPause = 30 * time.Millisecond
 )
